@@ -171,6 +171,8 @@ def handle (op : String) (args res : List String) : Option Verdict :=
       | _, _, _ => .bad "parse"
     | _, _ => .bad "parse"
   | "tmxzi" | "tmxsi" => some <|
+    -- tmxsi: the fourth input is the `image` flag ("0"/"1"), used by the harness only
+    let args := if op == "tmxsi" then args.take 3 ++ args.drop 4 else args
     match args.mapM pfl, res.mapM pfl with
     | some (f :: a :: b :: Ku :: Eu :: Kv :: KEv :: nf :: rest), some [uf, vf] =>
       match entries nf.toUInt64.toNat rest with
